@@ -76,6 +76,22 @@ CLAIMED["C18"] = {
     "design_ref": "5 (C18)",
 }
 
+CLAIMED["C09"] = {
+    "text": "Lean theorems about the fragment merge of the model: for every fragment list, every direction, after "
+            "merge_recursive no two plain lines (earlier first) are collinear and touching, the loop has reached its "
+            "fixpoint (fuel adequacy proved) and a line cannot occur twice; the collinearity test is exact on the "
+            "quarter-cell grid; a straight run of unit pieces of ANY length in any of the four directions merges "
+            "into exactly one line, dashed iff some piece is dashed (induction over the greedy pass). The whole model "
+            "pipeline is tied to the implementation byte-for-byte end to end and at the endorsement stage; the "
+            "property's oracle (runs 1..400 at offsets, pairwise exact-rational test on all line pairs) runs on the "
+            "implementation.",
+    "note": "Trusted: Lean kernel (+ Mathlib ring tactic, standard axioms); hand model tied by correspondence; f32 "
+            "point-on-segment of parry is modelled exactly (differences surface as disagreements); pairs across "
+            "different scopes/spans and after the re-endorsement stage are covered by the oracle, not yet by a theorem.",
+    "technique": "Lean 4 proof (greedy-loop fixpoint + induction over runs) over executable model + byte-level end-to-end correspondence + exact-geometry oracle",
+    "design_ref": "5 (C09)",
+}
+
 NOT_YET = {
 }
 
